@@ -100,6 +100,18 @@ def _check_one(case: dict):
         ax = mp.ax
         require(len(ax.images) >= 1, "C20:no-image", "nothing was drawn with imshow")
         _blocks_and_strips("C20", ax.images[0].get_array(), g, ul, values)
+        # where the image sits in data coordinates: paths are drawn at (ul*(col+1/2), ul*(row+1/2)), so the centre of cell (row, col)
+        # must fall on that cell's block when mapped back through the image's extent
+        im = ax.images[0]
+        left, right, bottom, top = (float(v) for v in im.get_extent())
+        H, W = np.ma.getdata(im.get_array()).shape[:2]
+        require(right != left and top != bottom, "C20:image-extent", f"degenerate extent {im.get_extent()}")
+        for (rr, cc) in {(0, 0), (g["r"] - 1, g["c"] - 1), (0, g["c"] - 1), (g["r"] - 1, 0), (g["r"] // 2, g["c"] // 2)}:
+            x, y = ul * (cc + 0.5), ul * (rr + 0.5)
+            px = (x - left) / (right - left) * W
+            py = (y - top) / (bottom - top) * H
+            require(cc * ul + 1 <= px <= (cc + 1) * ul and rr * ul + 1 <= py <= (rr + 1) * ul, "C20:image-extent",
+                    f"{g['r']}x{g['c']} maze, unit {ul}: the centre of cell ({rr},{cc}) at data ({x},{y}) maps to image pixel ({py:.1f},{px:.1f}), outside the cell's block; extent={im.get_extent()} image {H}x{W}")
         # true path: a line through the centres of exactly its cells, in order
         lines = [ln for ln in ax.lines]
         if true_path is not None:
@@ -184,7 +196,7 @@ def _case(draw, hi):
             p = p[::-1]
         return [list(q) for q in p]
 
-    case["pred_paths"] = [walk() for _ in range(draw(st.integers(0, 2)))]
+    case["pred_paths"] = [walk() for _ in range(draw(st.sampled_from([0, 1, 2, 2, 3, 7, 9])))]
     if draw(st.integers(0, 3)) == 0:
         case["true_path"] = walk()
     case["as_array"] = draw(st.booleans())
